@@ -39,7 +39,10 @@ RULE = ('case 0 = the reference against 16 hand-written expectations; every othe
         'components into ** (up to 3 runs), or random patterns; 1-3 patterns with '
         'different bases/roots; type/extra/exclude/filter/dist/cache drawn at random), the '
         'same call repeated, the same call with cache flipped, and 0-2 variants that differ '
-        'in exactly one argument (40-60 calls per script; plus "small" cases of 4-9 calls on '
+        'in exactly one argument; every tree also gets up to 3 directory triples {A, B nested '
+        'in A, sibling named A + a character below "/" (- . space + , !) + suffix} with files, '
+        'and two directed groups per triple whose pattern list has exactly these three bases '
+        '(plus random groups derived from entries below them) (40-60 calls per script; plus "small" cases of 4-9 calls on '
         '12-30 entries so that the global dist check is not masked by other calls); '
         'distinct = (tree digest, patterns, type, extra, exclude, '
         'find_exclude, filter); non-trivial = the reference selects at least one entry and '
@@ -89,7 +92,8 @@ def floors(tier):
     if tier == 'quick':
         return {'reference-selfchecks': 16, 'calls-judged': 1800,
                 'entries-compared': 50000, 'selected-must': 7000,
-                'exists-checked': 8000, 'repeat-compared': 450,
+                'exists-checked': 8000, 'lists-checked-for-duplicates': 1800,
+                'repeat-compared': 450,
                 'cacheflip-compared': 450, 'variant-compared': 450,
                 'served-from-cache': 500, 'match-evals': 25000,
                 'prune-verdicts': 6000, 'pruned-dirs-checked': 1500,
@@ -97,7 +101,8 @@ def floors(tier):
                 'distinct_nontrivial': 600}
     return {'reference-selfchecks': 16, 'calls-judged': 30000,
             'entries-compared': 900000, 'selected-must': 150000,
-            'exists-checked': 170000, 'repeat-compared': 7000,
+            'exists-checked': 170000, 'lists-checked-for-duplicates': 30000,
+            'repeat-compared': 7000,
             'cacheflip-compared': 7000, 'variant-compared': 7000,
             'served-from-cache': 8000, 'match-evals': 500000,
             'prune-verdicts': 120000, 'pruned-dirs-checked': 30000,
@@ -302,7 +307,60 @@ def gen_rules(rng, entries):
     return {'rules': rules}
 
 
-def gen_group(rng, g, ctx, small=False):
+SIBLING_CHARS = ['-', '.', ' ', '+', ',', '!']      # all sort below '/'
+
+
+def add_prefix_siblings(rng, tree, count):
+    """Directory triples (A, B nested in A, S = A's name + a character below
+    '/' + suffix, next to A), each with matching files: the shape in which
+    "children sort right after their parent" differs between component order
+    and string order (A < A-gen < A/sub as strings).  -> [(A, B, S)] as paths"""
+    triples = []
+    dirs = [k for k, v in tree.items() if v is None and
+            not any(refglob.is_glob_component(c) for c in k.split('/')) and
+            k.count('/') < 3]
+    rng.shuffle(dirs)
+    for a in dirs[:count]:
+        kids = [k for k, v in tree.items() if v is None and
+                k.startswith(a + '/') and k.count('/') == a.count('/') + 1 and
+                not refglob.is_glob_component(k.rsplit('/', 1)[1])]
+        if kids and rng.random() < 0.6:
+            b = rng.choice(kids)
+        else:
+            b = a + '/' + rng.choice(['sub', 'nest', 'in.ner', 'b'])
+            if b in tree and tree[b] is not None:
+                continue
+            tree[b] = None
+        for name in rng.sample(['sub.c', 'x.c', 'y.h', 'z'], 2):
+            tree.setdefault(b + '/' + name, 'x\n')
+        tree.setdefault(a + '/' + rng.choice(['main.c', 'x.c', 'top.h']), 'x\n')
+        sib = a + rng.choice(SIBLING_CHARS) + rng.choice(['gen', 'old', '2', 'x'])
+        if sib in tree and tree[sib] is not None:
+            continue
+        tree[sib] = None
+        for name in rng.sample(['gen.c', 'x.c', 'g.h', 'z'], 2):
+            tree.setdefault(sib + '/' + name, 'x\n')
+        triples.append((a, b, sib))
+    return triples
+
+
+def directed_patterns(rng, triple):
+    """A, sibling and nested base in one list, in random order."""
+    a, b, sib = triple
+    tails = ['*', '*.c', '*.*', '**/*.c', '?*', '**', '*.[ch]', '**/*']
+    pats = [{'s': d + '/' + rng.choice(tails), 'root': None, 'obj': False}
+            for d in (a, sib, b)]
+    if rng.random() < 0.3:
+        pats.append({'s': rng.choice([a, b, sib]) + '/' + rng.choice(tails),
+                     'root': None, 'obj': False})
+    rng.shuffle(pats)
+    if rng.random() < 0.25:
+        for q in pats:
+            q['obj'], q['root'] = True, 'srcdir'
+    return pats
+
+
+def gen_group(rng, g, ctx, small=False, preset=None):
     """-> list of call dicts (base, repeat, flip, variants)."""
     src_entries, src_dirs = ctx['src_entries'], ctx['src_dirs']
     fe_slash = any(x.endswith('/') for x in ctx['find_exclude'])
@@ -336,7 +394,28 @@ def gen_group(rng, g, ctx, small=False):
         p, wd = one_pattern()
         pats.append(p)
         wants.append(wd)
-    if npat > 1 and rng.random() < 0.4:
+    if preset is None and npat > 1 and ctx.get('triples') and rng.random() < 0.2:
+        # random part: patterns derived from entries below A, its sibling and
+        # the nested directory (bases at or below those directories)
+        preset_dirs = list(rng.choice(ctx['triples']))
+        rng.shuffle(preset_dirs)
+        pats, wants = [], []
+        for d in preset_dirs:
+            dc = d.split('/')
+            below = [e for e in src_entries
+                     if e[0][:len(dc)] == dc and len(e[0]) > len(dc)]
+            p = derive_pattern(rng, below, min_prefix=len(dc)) if below else None
+            if p:
+                pats.append({'s': p[0], 'root': None, 'obj': False})
+                wants.append(p[1])
+        if not pats:
+            p, wd = one_pattern()
+            pats, wants = [p], [wd]
+        npat = len(pats)
+    if preset is not None:
+        pats, wants = preset, [False] * len(preset)
+        npat = len(pats)
+    elif npat > 1 and rng.random() < 0.4:
         # nested bases: a second pattern below (or above) the first one's base
         p = None
         for _ in range(5):
@@ -445,6 +524,7 @@ def gen_group(rng, g, ctx, small=False):
 def gen_case(seed, idx, small):
     rng = core.rng_for(seed, 'c11', idx)
     tree = gen_tree(rng, 25, 70) if not small else gen_tree(rng, 12, 30)
+    triples = add_prefix_siblings(rng, tree, 3 if not small else 2)
     gen = gen_tree(rng, 5, 12, top='gen', max_depth=4)
     ext = gen_tree(rng, 5, 10, max_depth=3, links=False)
     ctx = {
@@ -453,10 +533,18 @@ def gen_case(seed, idx, small):
         'src_dirs': [[]] + [k.split('/') for k, v in tree.items() if v is None],
         'gen_entries': [e for e in tree_entries(gen) if len(e[0]) > 1],
         'ext_entries': tree_entries(ext),
+        'triples': triples,
     }
     calls = []
     g = 0
-    budget = rng.randint(40, 60) if not small else rng.randint(4, 9)
+    # directed groups: {A, directory nested in A, sibling "A<char below />..."}
+    for t in triples:
+        for _ in range(2 if not small else 1):
+            calls.extend(gen_group(rng, g, ctx, small,
+                                   preset=directed_patterns(rng, t)))
+            g += 1
+    budget = rng.randint(40, 60) if not small else \
+        len(calls) + rng.randint(4, 9)
     while len(calls) < budget:
         calls.extend(gen_group(rng, g, ctx, small))
         g += 1
@@ -901,10 +989,24 @@ def _run_case(case, res, scratch):
         res.key([tdigest, ref_spec(c), case['find_exclude']],
                 bool(sel['must']) and len(sel['must']) < len(sel['universe']))
 
+        # -- the result LIST names every entry once
+        res.ev('lists-checked-for-duplicates')
         if len(got_list) != len(got):
             dup = sorted(k for k in got if got_list.count(k) > 1)
-            res.violate(('duplicate-entry',) + pc,
-                        dict(wit_base, duplicates=['/'.join(k[:2]) for k in dup][:5]))
+            bases = sorted(set((q.root, '/'.join(q.base)) for q in sel['patterns']))
+            nested = [b for b in bases if any(
+                a[0] == b[0] and a != b and
+                (a[1] == '' or b[1].startswith(a[1] + '/')) for a in bases)]
+            below_nested = any(k[0] == b[0] and (k[1] == b[1] or
+                                                 k[1].startswith(b[1] + '/'))
+                               for k in dup for b in nested)
+            res.violate(('duplicate-entry', 'below-a-base-nested-in-another-base'
+                         if below_nested else 'other'),
+                        dict(wit_base, duplicates=[k[1] for k in dup][:5],
+                             n_duplicates=len(dup),
+                             pattern_bases=[b[1] for b in bases],
+                             nested_bases=[b[1] for b in nested],
+                             returned=[k[1] for k in got_list][:20]))
 
         # -- every returned entry exists and is of the reported kind
         for x in r['ok']:
